@@ -5,7 +5,6 @@ import (
 	"go/token"
 	"go/types"
 	"math"
-	"unicode/utf8"
 
 	"golang.org/x/tools/go/ssa"
 )
@@ -482,7 +481,7 @@ func (in *Interp) checkIndex(t *Term, n int, what string) int {
 
 func (in *Interp) execIndex(g *G, fr *Frame, x *ssa.Index) {
 	base := in.get(fr, x.X)
-	it := in.get(fr, x.Index).(*Term)
+	it := in.index64(in.get(fr, x.Index).(*Term), x.Index.Type())
 	var elems []Value
 	switch b := base.(type) {
 	case *Agg:
@@ -520,11 +519,15 @@ func (in *Interp) selectElem(elems []Value, it *Term) Value {
 		}
 	}
 	if allScalar && len(elems) > 0 {
-		res := elems[len(elems)-1].(*Term)
-		for k := len(elems) - 2; k >= 0; k-- {
-			res = in.tt.Ite(in.tt.Eq(it, in.tt.Const(it.w, uint64(k))), elems[k].(*Term), res)
+		ts := make([]*Term, len(elems))
+		for i, e := range elems {
+			ts[i] = e.(*Term)
 		}
-		return res
+		top := 0
+		for (1 << uint(top+1)) < len(ts) {
+			top++
+		}
+		return in.muxTree(ts, it, top)
 	}
 	k := in.concretize(it, "index")
 	return elems[k]
@@ -532,7 +535,7 @@ func (in *Interp) selectElem(elems []Value, it *Term) Value {
 
 func (in *Interp) execIndexAddr(g *G, fr *Frame, x *ssa.IndexAddr) {
 	base := in.get(fr, x.X)
-	it := in.get(fr, x.Index).(*Term)
+	it := in.index64(in.get(fr, x.Index).(*Term), x.Index.Type())
 	var ag *Agg
 	var off, n int
 	switch b := base.(type) {
@@ -556,9 +559,23 @@ func (in *Interp) execIndexAddr(g *G, fr *Frame, x *ssa.IndexAddr) {
 		return
 	}
 	if i == -2 {
+		scalar := n <= 512
+		if scalar {
+			for k := 0; k < n; k++ {
+				if _, ok := ag.s[off+k].(*Term); !ok {
+					scalar = false
+					break
+				}
+			}
+		}
+		if scalar {
+			in.set(fr, x, PtrV{base: ag, idx: off, sym: it, n: n})
+			fr.ip++
+			return
+		}
 		i = int(in.concretize(it, "index"))
 	}
-	in.set(fr, x, PtrV{ag, off + i})
+	in.set(fr, x, PtrV{base: ag, idx: off + i})
 	fr.ip++
 }
 
@@ -566,7 +583,7 @@ func (in *Interp) execLookup(g *G, fr *Frame, x *ssa.Lookup) {
 	base := in.get(fr, x.X)
 	switch b := base.(type) {
 	case StrV:
-		it := in.get(fr, x.Index).(*Term)
+		it := in.index64(in.get(fr, x.Index).(*Term), x.Index.Type())
 		i := in.checkIndex(it, len(b.b), "string index")
 		if i == -1 {
 			return
@@ -857,33 +874,14 @@ func (in *Interp) execNext(g *G, fr *Frame, x *ssa.Next) {
 		}
 		b0 := it.s.b[it.pos]
 		start := it.pos
-		if !b0.IsConst() {
-			// ASCII fast path by decision; otherwise decode fully concretely after concretising bytes
-			if in.decide(tt.Ult(b0, tt.Const(8, 0x80))) {
-				it.pos++
-				in.set(fr, x, TupleV{tt.True, tt.Const(64, uint64(start)), tt.Zext(b0, 32)})
-				fr.ip++
-				return
-			}
+		_ = b0
+		end := it.pos + 4
+		if end > len(it.s.b) {
+			end = len(it.s.b)
 		}
-		// concretise up to 4 bytes
-		var buf []byte
-		for k := 0; k < 4 && it.pos+k < len(it.s.b); k++ {
-			bt := it.s.b[it.pos+k]
-			var c uint64
-			if bt.IsConst() {
-				c = bt.c
-			} else {
-				c = in.concretize(bt, "utf8 byte")
-			}
-			buf = append(buf, byte(c))
-			if utf8.FullRune(buf) {
-				break
-			}
-		}
-		r, size := utf8.DecodeRune(buf)
+		r, size := in.decodeRuneSym(it.s.b[it.pos:end])
 		it.pos += size
-		in.set(fr, x, TupleV{tt.True, tt.Const(64, uint64(start)), tt.Const(32, uint64(r))})
+		in.set(fr, x, TupleV{tt.True, tt.Const(64, uint64(start)), r})
 	default:
 		in.abort("next on %T", itv)
 	}
